@@ -126,6 +126,31 @@ def rule_a(ctx, rule='C10.a'):
     rep.add(rule, 'StreamHandler.initial_request_n / rejected value', f, ok,
             'the stream id is released on every rejecting path' if ok else
             'a rejecting path leaves the stream registered')
+    # the same for the other methods an application calls on a requester that is already registered: an explicit
+    # rejection on the way (an argument check in a frame builder, say) must release the id before it propagates
+    n_sub = 0
+    for h in m.handlers:
+        if m.role(h)[1] != 'requester':
+            continue
+        for en in m.entries(h):
+            if en.kind != 'method' or en.func.node.name not in ('subscribe', 'request', 'cancel'):
+                continue
+            n_sub += 1
+            leaks = []
+            for p in m.run(en, init_bools(ctx, m, h)):
+                if p.outcome != 'raise':
+                    continue
+                explicit = [e for e in p.events if e.kind == 'raise' and not e.data.get('implicit')]
+                if not explicit:
+                    continue
+                if not m.finished(p):
+                    leaks.append(explicit[-1])
+            rep.add(rule, '%s.%s / a rejection releases the stream id' % (h.name, en.func.node.name), en.func,
+                    not leaks,
+                    'no explicit raise is reachable with the stream still registered' if not leaks else
+                    'the raise at line %s propagates out of %s() with the requester still in the stream table: the '
+                    'id is never released' % (leaks[0].line, en.func.node.name))
+    rep.require(rule, 'requester methods called by the application', n_sub, 4)
 
 
 def _emits(m, h, p, cname):
